@@ -58,11 +58,17 @@ def run(chk: Check, repo: Repo) -> None:
         chk.ob("task-cancel", f.site(), got == want, f"Task.cancel running={running}: {sorted(got)}; reference {sorted(want)}", key=f"cancel|{running}")
     # Task._start
     f = T("_start"); chk.unit(f)
-    for registered in (False, True):
-        cfg, paths = _run(repo, f, self_calls, {"self.xknx": Obj("XKNX", "x") if registered else None, "self._task": None})
+    from itertools import product as _product
+    for registered, restart_opt, connected in _product((False, True), (False, True), (False, True)):
+        def start_calls(c: ast.Call, env, connected=connected):
+            if call_name(c).endswith("connection_manager.connected.is_set"):
+                return [Outcome(None, connected)]
+            return self_calls(c, env)
+        cfg, paths = _run(repo, f, start_calls, {"self.xknx": Obj("XKNX", "x") if registered else None, "self._task": None, "self.restart_after_reconnect": restart_opt})
         got = {(tuple(t for t in p.env.get("trace", ()) if not t.startswith("raise:")), p.end_kind) for p in paths}
-        want = {(("CREATE_TASK",), "exit")} if registered else {((), "raise")}
-        chk.ob("task-start", f.site(), got == want, f"Task._start registered={registered}: {sorted(got)}; reference {sorted(want)}", key=f"start|{registered}")
+        # a task that restarts after reconnection is not started while disconnected (reconnected() starts it then)
+        want = {((), "raise")} if not registered else ({((), "exit")} if (restart_opt and not connected) else {(("CREATE_TASK",), "exit")})
+        chk.ob("task-start", f.site(), got == want, f"Task._start registered={registered} restart_after_reconnect={restart_opt} connected={connected}: {sorted(got)}; reference {sorted(want)}", key=f"start|{registered}|{restart_opt}|{connected}")
     # Task.restart = cancel then start
     f = T("restart"); chk.unit(f)
     cfg, paths = _run(repo, f, self_calls, {})
